@@ -54,6 +54,12 @@ pub enum Step {
     ResumeOld(usize),
     /// The kept reader of the remote's previous attachment is dropped.
     DropOld(usize),
+    /// The running agent registers late lane `l` (index into the lanes of the run: the ordinary lanes, then
+    /// `Config::late`); the lane withholds the acknowledgement of its initialisation (`LaneCtl::AckInit`).
+    AgentReg(usize),
+    /// Attach the remote (fresh routing id) without waiting for the runtime's confirmation: the script goes on at
+    /// once (the confirmation is looked for after every later step).
+    AttachNoWait(usize),
     /// Attach command-only channel `k` (`AgentAttachmentRequest::commander`), with its own routing id.
     AttachOneWay(usize),
     /// An envelope written to command-only channel `k` (a command, or - hostile - link / sync / unlink).
@@ -79,6 +85,9 @@ pub struct Themes {
     /// Directed: a remote without links is removed for inactivity while a write to its stalled reader is under
     /// way, attaches again under its id, and only then the old reader resumes or is dropped.
     pub stale: bool,
+    /// Directed: a remote attaches and syncs while the write task is parked in the registration of a lane and
+    /// its message queue (2 entries) is full of link / unlink coordination messages.
+    pub race: bool,
 }
 
 #[derive(Clone, Debug)]
@@ -104,6 +113,13 @@ pub struct Config {
     /// Number of command-only channels (extension parts only).
     pub oneway: usize,
     pub themes: Themes,
+    /// `attachment_queue_size` of the runtime (None: the default, 16).
+    pub queue: Option<usize>,
+    /// Lanes the running agent registers when the script says so; before the run they are appended to `lanes`
+    /// (the script addresses them by the index they have then).
+    pub late: Vec<LaneSpec>,
+    /// Host the agent through `run_agent_with_store` on an in-memory store; the lanes are not transient.
+    pub with_store: bool,
 }
 
 #[derive(Clone, Copy, Debug, PartialEq, Eq)]
@@ -210,7 +226,7 @@ impl<'a> Gen<'a> {
         // (the existing focuses draw nothing here: their cases are what they were before the extension)
         let themes = match focus {
             Focus::Attach => {
-                let mut t = Themes { dup: self.rng.bool(), oneway: self.rng.bool(), corrupt: self.rng.bool(), badkey: self.rng.bool(), stale: false };
+                let mut t = Themes { dup: self.rng.bool(), oneway: self.rng.bool(), corrupt: self.rng.bool(), badkey: self.rng.bool(), stale: false, race: false };
                 if t == Themes::default() {
                     match self.rng.below(4) {
                         0 => t.dup = true,
@@ -234,6 +250,13 @@ impl<'a> Gen<'a> {
                     t.dup = false;
                     t.badkey = false;
                 }
+                // (and a runtime whose queues hold two messages is a conversation of its own)
+                if self.rng.chance(1, 4) {
+                    t.race = true;
+                    t.stale = false;
+                    t.dup = false;
+                    t.badkey = false;
+                }
                 t
             }
             Focus::BadKey => Themes { badkey: true, ..Themes::default() },
@@ -241,6 +264,7 @@ impl<'a> Gen<'a> {
             _ => Themes::default(),
         };
         let remotes = match focus {
+            Focus::Attach if themes.race => self.rng.range(2, 4) as usize,
             Focus::Protocol | Focus::Links | Focus::Attach => self.rng.range(1, 4) as usize,
             Focus::Inactivity => self.rng.range(1, 3) as usize,
             Focus::BadKey => self.rng.range(2, 3) as usize,
@@ -330,9 +354,11 @@ impl<'a> Gen<'a> {
                     in_buf: *self.rng.pick(bufs),
                     out_buf: *self.rng.pick(bufs),
                     initial: Bytes::from(format!("{}", ((0x300 + i as u64) << 32))),
+                    late: false,
                 }
             })
             .collect();
+        let n_lanes = lanes.len();
         let small = self.rng.chance(2, 3);
         let mut cap_out = vec![];
         let mut cap_in = vec![];
@@ -430,6 +456,20 @@ impl<'a> Gen<'a> {
             nothing_stalls: inactivity,
             oneway: if themes.oneway { self.rng.range(1, 3) as usize } else { 0 },
             themes,
+            queue: if themes.race { Some(2) } else { None },
+            late: if themes.race {
+                // non-transient value / map lanes: their registration parks the write task until they acknowledge
+                (0..2usize)
+                    .map(|k| {
+                        let i = n_lanes + k;
+                        let kind = if k == 0 { LK::Value } else { LK::Map };
+                        LaneSpec { name: format!("{}{i}", if k == 0 { "v" } else { "m" }), kind, transient: false, in_buf: 64, out_buf: 64, initial: Bytes::from(format!("{}", ((0x300 + i as u64) << 32))), late: true }
+                    })
+                    .collect()
+            } else {
+                vec![]
+            },
+            with_store: false,
         }
     }
 
@@ -588,7 +628,7 @@ impl<'a> Gen<'a> {
             _ => [110, 90, 70, 50, 25, 70, 150, 30, 5, 10, 30, 3, 3],
         };
         // (overlapping attachment, command-only channel, corrupt request frame, non-UTF-8 key, removed with a write under way)
-        let tw: [u64; 5] = [
+        let tw: [u64; 6] = [
             if th.dup { 45 } else { 0 },
             if !th.oneway || cfg.oneway == 0 {
                 0
@@ -608,7 +648,9 @@ impl<'a> Gen<'a> {
                 50
             },
             if th.stale && cfg.prune_ms.is_some() { 55 } else { 0 },
+            if th.race && !cfg.late.is_empty() && n >= 2 { 60 } else { 0 },
         ];
+        let mut late_used = 0usize;
         for _ in 0..len {
             let r = self.rng.usize_below(n);
             if !attached[r] {
@@ -628,7 +670,7 @@ impl<'a> Gen<'a> {
             let mut acc = 0;
             let mut pick = usize::MAX;
             // (the fifth theme is arm 100 so that the arms of the ordinary steps keep their numbers)
-            for (i, wi) in tw.iter().enumerate().map(|(i, w)| (if i == 4 { 100 } else { i }, w)).chain(w.iter().enumerate().map(|(i, w)| (4 + i, w))) {
+            for (i, wi) in tw.iter().enumerate().map(|(i, w)| (if i >= 4 { 96 + i } else { i }, w)).chain(w.iter().enumerate().map(|(i, w)| (4 + i, w))) {
                 acc += wi;
                 if roll < acc {
                     pick = i;
@@ -773,6 +815,56 @@ impl<'a> Gen<'a> {
                         steps.push(self.lane_change(cfg, l, focus));
                         if self.rng.bool() {
                             steps.push(Step::Sync(r, self.lane_name(cfg, focus)));
+                        }
+                        steps.push(Step::Settle);
+                    }
+                }
+                101 => {
+                    // a second remote slot that gets a fresh attachment; value and map lanes to sync with
+                    let r1 = (r + 1 + self.rng.usize_below(n - 1)) % n;
+                    let targets: Vec<usize> = (0..cfg.lanes.len()).filter(|l| matches!(cfg.lanes[*l].kind, LK::Value | LK::Map)).collect();
+                    if !corrupt[r] && late_used < cfg.late.len() && !targets.is_empty() {
+                        let late_idx = cfg.lanes.len() + late_used;
+                        let late_name = cfg.late[late_used].name.clone();
+                        late_used += 1;
+                        if attached[r1] && !gone[r1] {
+                            steps.push(Step::DropRemote(r1));
+                        }
+                        // nothing under way; every lane takes requests (a sync must not wait for the lane)
+                        steps.push(Step::Settle);
+                        // the agent registers a lane that does not acknowledge: the write task waits for it
+                        steps.push(Step::AgentReg(late_idx));
+                        steps.push(Step::Quiesce);
+                        // exactly as many coordination messages as the write task's queue holds
+                        let x = cfg.lanes[*self.rng.pick(&targets)].name.clone();
+                        steps.push(Step::Link(r, x.clone()));
+                        steps.push(Step::Unlink(r, x));
+                        steps.push(Step::Quiesce);
+                        // a remote attaches and syncs right then
+                        steps.push(Step::AttachNoWait(r1));
+                        attached[r1] = true;
+                        gone[r1] = false;
+                        corrupt[r1] = false;
+                        let first = *self.rng.pick(&targets);
+                        let second = *self.rng.pick(&targets);
+                        steps.push(Step::Lane(first, LaneCtl::SyncMode(SyncMode::Atomic)));
+                        steps.push(Step::Sync(r1, cfg.lanes[first].name.clone()));
+                        if second != first && self.rng.bool() {
+                            steps.push(Step::Lane(second, LaneCtl::SyncMode(SyncMode::Atomic)));
+                            steps.push(Step::Sync(r1, cfg.lanes[second].name.clone()));
+                        }
+                        steps.push(if self.rng.bool() { Step::Quiesce } else { Step::Run(12) });
+                        // the late lane acknowledges, the write task goes on
+                        steps.push(Step::Lane(late_idx, LaneCtl::AckInit));
+                        steps.push(Step::Quiesce);
+                        // what the lanes do afterwards must reach the new remote as well
+                        steps.push(self.lane_change(cfg, first, focus));
+                        // the lane that appeared at run time is a lane like the others
+                        if self.rng.bool() {
+                            steps.push(Step::Sync(r, late_name));
+                            if late_idx == cfg.lanes.len() {
+                                steps.push(Step::Lane(late_idx, LaneCtl::Set(self.body(16 + late_idx))));
+                            }
                         }
                         steps.push(Step::Settle);
                     }
